@@ -43,6 +43,7 @@ STAGES = {
     "C14": [S("regress", "^TestC14Regress$|^TestC14LibLib$"),
             S("server-enum", "^TestC14Server$", shards=(4, 16)),
             S("client-enum", "^TestC14Client$", shards=(1, 4)),
+            S("shared-header", "^TestC14SharedHeader$", quick=300, thorough=20000, shards=(1, 4)),
             S("server-lists", "^TestC14ServerLists$", quick=2500, thorough=60000, shards=(3, 16)),
             S("interleaved", "^TestC14Interleaved$", quick=600, thorough=20000, shards=(2, 16))],
     "C15": [S("outbound", "^TestC15$", quick=3000, thorough=150000, shards=(3, 16)),
